@@ -7,7 +7,8 @@ V = Path(__file__).resolve().parent.parent
 ids = [json.loads(l)["id"] for l in open(V / "properties.jsonl")]
 
 COMMON_NOTE = ("Trusted: Lean 4.33 kernel; axioms ⊆ {propext, Classical.choice, Quot.sound} (audited every run, no "
-               "sorry/native_decide/bv_decide); translator/gen.py for Generated/*; the correspondence harness "
+               "sorry/native_decide/bv_decide); translator/*.py for Generated/* (its output is re-proved equal to the frozen "
+               "reference the proofs use by generated Bridge obligations every run); the correspondence harness "
                "(differential testing bounds the model↔code tie for hand-written parts); NumPy/numba/OS modelled, not verified.")
 
 # id -> (technique, level text, level note extra, design_ref)
@@ -49,7 +50,9 @@ CHECKS = {
             "bottleneck's move_mean/move_median and np.pad('symmetric') are modelled by their definitions and tied by "
             "correspondence over all lengths 1..16(24) x widths 1..2n+3; float rounding compared with tolerance.",
             "§5 C14"),
-    "C16": ("Lean 4 proof of the Boolean mask algebra (union, monotonicity, closed-range user mask) and the cleaned "
+    "C16": ("Lean 4 proof of the Boolean mask algebra (union, monotonicity, closed-range user mask), of the equality "
+            "of RFIMask.apply_mask/apply_method/apply_funcn TRANSLATED from rfi.py on every run with that algebra "
+            "(Tie/StateMachines), and of the cleaned "
             "file as an instance of C07's row-local streaming theorem + differential correspondence of every mask after "
             "every call + independent outlier/masking oracle on real files",
             "Theorems mask_union, mask_monotone(_trace), user_mask_spec, stats_mask_spec, threshold_spec, "
@@ -75,11 +78,17 @@ CHECKS = {
             "the FFT pair enters through the circular-convolution identity; z-scores are C15's; float32 FFT error is "
             "bounded numerically, not proved.", "§5 C13"),
     "C17": ("Lean 4 proof by induction over update histories (invariant: every profile is the original rolled by the "
-            "shifts on record) + differential correspondence after every call + fresh-cube oracle",
+            "shifts on record), stated both for the hand model and for FoldedData.update_dm/update_period/_get_dmdelays/"
+            "_get_pdelays TRANSLATED statement by statement from foldedcube.py on every run (Tie/StateMachines: "
+            "generated_history_irrelevant, generated_return_restores) + differential correspondence after every call + "
+            "fresh-cube oracle + drift-law / drift-consistency oracle",
             "Theorems cube_after_history (the cube depends only on the LAST dm and period targets), history_irrelevant, "
             "idempotent_dm/period, return_restores (bit for bit), multiset_preserved, one_shot, dm_period_commute; "
-            "np.roll as rollRow with rollP_rollP composition. Histories are unbounded.",
-            "The float maps target→drift vector are parameters of each operation (taken from the implementation per "
+            "np.roll as rollRow with rollP_rollP composition; update_dm_is_model / update_period_is_model tie the translated "
+            "methods to the model; the drift of a target is measured from the FOLDING values. Histories are unbounded.",
+            "Array aliasing / in-place mutation of NumPy objects is not visible to the functional translation (exercised "
+            "by the correspondence run: the drift of a target must be the same vector whenever it is measured in the "
+            "process and agree with the drift law). The float maps target→drift vector are parameters of each operation (taken from the implementation per "
             "target, required only to be what the implementation computes relative to the folding values).", "§5 C17"),
     "C19": ("Lean 4 proof of schedule independence from footprint disjointness (any permutation / chunking / thread "
             "count) + per-kernel store-index obligations REGENERATED from kernels.py on every run + thread-count / "
@@ -91,7 +100,10 @@ CHECKS = {
             "schedules are orders of whole iterations (step-level interleavings of loads/stores are not modelled); a "
             "moved prange axis breaks an obligation deterministically even when no run exhibits the race.", "§5 C19"),
     "C09": ("Lean 4 proof of the delay law's algebra over ℚ (round-half-even odd/monotone/nearest) and of the index form of "
-            "every block dedispersion path (np.roll as List.rotate) + differential correspondence incl. exact-rational "
+            "every block dedispersion path (np.roll as List.rotate), with kernels.roll_block / roll_block_valid / "
+            "dmt_block / dmt_block_valid TRANSLATED statement by statement on every run and proved equal to the model "
+            "(Kernels/RollBlock, Kernels/DmtBlock: *_spec, *_in_row no-wrap, *_none_iff, *_link) + differential "
+            "correspondence (incl. the translated kernels on tiny blocks) incl. exact-rational "
             "delay law vs float32 delays + x[c,t+delay_c] oracle on unique-valued data",
             "Theorems delay_zero_at_ref, delay_antisymm, delay_mono_freq, delay_is_rounded_law; rollRow_get (circular "
             "index form), rollRow_inverse / blockDedisperse_inverse (DM then −DM = id), blockDedisperseValid_get, "
@@ -101,11 +113,15 @@ CHECKS = {
             "float32 error bound of a .5 boundary), not proved; valid-samples and streamed paths index from the "
             "earliest needed sample (offset max(0,−min delay)).", "§5 C09"),
     "C11": ("Lean 4 proof that the fold accumulations over the C01 block plan are exactly one per (sample, channel) for "
-            "every gulp + differential correspondence of cube/counts + independent per-sample assignment oracle",
+            "every gulp, and of the specification of kernels.fold TRANSLATED loop by loop from kernels.py on every run, "
+            "phase formula included (exact rationals): Kernels/Fold fold_spec, srcCell_lt, srcPhaseBin_documented, "
+            "fold_counts_total + differential correspondence of cube/counts and of the translated kernel on tiny blocks "
+            "+ independent per-sample assignment oracle",
             "Theorems foldWrites_eq, fold_gulp_independent, fold_partition (counts sum to samples×channels; each cell is "
             "the sum of exactly the samples the tables assign to it), cell_lt, applyAdd_cell, periodic_single_bin over ℚ.",
-            "Phase-bin / sub-integration / sub-band assignments enter as tables computed by the harness with the "
-            "kernel's own IEEE operations (the float phase formula is validated, not proved); whole-file folds.",
+            "In the streaming model the phase-bin / sub-integration / sub-band assignments are tables (fold_cell_link "
+            "shows the tables of the translated source's own functions give the source's cell); IEEE rounding of the "
+            "phase formula at a bin boundary is validated, not proved; whole-file folds.",
             "§5 C11"),
     "C07": ("Lean 4 proof that each streaming transform (per-block kernel over the C01 block plan, appended by cwrite) "
             "equals the whole-array transform for every gulp + differential correspondence on the raw output bytes + "
